@@ -1,6 +1,7 @@
 package world
 
 import (
+	"bytes"
 	"crypto"
 	"crypto/ecdsa"
 	"crypto/elliptic"
@@ -14,6 +15,10 @@ import (
 	"math/big"
 	"sync"
 	"time"
+
+	"github.com/ProtonMail/go-crypto/openpgp"
+	"github.com/ProtonMail/go-crypto/openpgp/armor"
+	"github.com/ProtonMail/go-crypto/openpgp/packet"
 )
 
 // Epoch is just before the bubble clock's start (2000-01-01): every fixture
@@ -136,4 +141,60 @@ func (id *Identity) KeyPEM() []byte {
 		panic(err)
 	}
 	return pem.EncodeToMemory(&pem.Block{Type: "PRIVATE KEY", Bytes: der})
+}
+
+var (
+	pgpMu    sync.Mutex
+	pgpCerts = map[string][]byte{}
+	pgpEnts  = map[string]*openpgp.Entity{}
+)
+
+// PGPEntity builds (once) an OpenPGP certificate around an identity's key,
+// created at Epoch so that it is valid on the virtual clock.
+func PGPEntity(id *Identity) (*openpgp.Entity, []byte) {
+	pgpMu.Lock()
+	defer pgpMu.Unlock()
+	if e, ok := pgpEnts[id.Name]; ok {
+		return e, pgpCerts[id.Name]
+	}
+	var priv *packet.PrivateKey
+	switch k := id.Key.(type) {
+	case *rsa.PrivateKey:
+		priv = packet.NewRSAPrivateKey(Epoch, k)
+	default:
+		panic("unsupported key type for PGP")
+	}
+	cfg := &packet.Config{DefaultHash: crypto.SHA256, Time: func() time.Time { return Epoch }}
+	uid := packet.NewUserId(id.Name, "", id.Name+"@example.com")
+	primary := true
+	sig := &packet.Signature{
+		Version:      4,
+		SigType:      packet.SigTypePositiveCert,
+		PubKeyAlgo:   priv.PubKeyAlgo,
+		Hash:         crypto.SHA256,
+		CreationTime: Epoch,
+		IssuerKeyId:  &priv.KeyId,
+		IsPrimaryId:  &primary,
+		FlagsValid:   true,
+		FlagSign:     true,
+		FlagCertify:  true,
+	}
+	if err := sig.SignUserId(uid.Id, &priv.PublicKey, priv, cfg); err != nil {
+		panic(err)
+	}
+	e := &openpgp.Entity{PrimaryKey: &priv.PublicKey, PrivateKey: priv, Identities: map[string]*openpgp.Identity{
+		uid.Id: {Name: uid.Id, UserId: uid, SelfSignature: sig, Signatures: []*packet.Signature{sig}},
+	}}
+	var buf bytes.Buffer
+	aw, err := armor.Encode(&buf, "PGP PUBLIC KEY BLOCK", nil)
+	if err != nil {
+		panic(err)
+	}
+	if err := e.Serialize(aw); err != nil {
+		panic(err)
+	}
+	aw.Close()
+	pgpEnts[id.Name] = e
+	pgpCerts[id.Name] = buf.Bytes()
+	return e, buf.Bytes()
 }
